@@ -94,6 +94,19 @@ def judge(module, cfg, files, tag, env_extra=None, timeout=3600, heap="3g"):
 
     with concurrent.futures.ThreadPoolExecutor(max_workers=min(16, max(1, len(files)))) as ex:
         for i, r in ex.map(one, range(len(files))):
+            if r.errors:
+                # an evaluation error while judging a record is a verdict on that record (total verdicts):
+                # the record is outside what the specification can even interpret
+                import re as _re
+                txt = open(r.out_path).read()
+                m = _re.search(r"^(?:/\\ )?l = (\d+)\s*$", txt, _re.M)
+                if m and "Parsing or semantic analysis failed" not in txt:
+                    results.append((i, int(m.group(1)), "EvalError"))
+                    for v in r.violations:
+                        lv = v["state"].get("l")
+                        if lv is not None:
+                            results.append((i, int(lv), v["name"]))
+                    continue
             tlc.require_clean(r, "trace validation %s on %s" % (module, files[i]))
             nrec = sum(1 for _ in open(files[i]))
             if r.distinct != nrec:
